@@ -11,7 +11,12 @@ PKG_DOCS = {
                  TYPE("pa2", [K("k2", "integer")], extends="pa1")],
     "zcvpkg_b": [TYPE("pb1", [MK("m1")], implements="abs1")],
     "zcvpkg_c": [TYPE("pc1", [K("k1")], implements="abs2")],
+    # extends a type of the importing schema under another key type (wildcard defaults are re-keyed)
+    "zcvpkg_d": [TYPE("pd1", [K("own")], extends="wbase", keytype="identifier", implements="abs1")],
 }
+# types the importing schema must define for a package to make sense (used to expand the component)
+CONTEXT = [schemas.ABS("abs1"), schemas.ABS("abs2"),
+           TYPE("wbase", [K("k0"), K("+", attribute="w", defaults=[("Alpha", "av"), ("beta", "bv")])])]
 NOT_OK = ["zcvpkg_nocomp", "zcvmod_plain", "zcvpkg_missing", "zcvpkg_a."]
 
 
@@ -44,7 +49,7 @@ def abstract_packages():
     out = {}
     for name, types in PKG_DOCS.items():
         # expand relative to a schema that declares the abstract types the component refers to
-        doc = schemas.SCHEMA(types=[schemas.ABS("abs1"), schemas.ABS("abs2")] + types)
+        doc = schemas.SCHEMA(types=list(CONTEXT) + types)
         rec = schemas.for_tla(schemas.expand(doc))
         tys = {n: t for n, t in rec["types"].items() if n in {t["name"] for t in types}}
         impl = {}
